@@ -295,6 +295,11 @@ pub struct Expansion {
 }
 
 pub fn expand(tools: &MacroTools, dir: &Path, file: &str, hash_seed: u64, manifest_dir: Option<&Path>) -> Result<Expansion, String> {
+    expand_from(tools, dir, file, hash_seed, manifest_dir, true)
+}
+
+/// `decoy_cwd`: start rustc from a directory that holds another `schema.json`.
+pub fn expand_from(tools: &MacroTools, dir: &Path, file: &str, hash_seed: u64, manifest_dir: Option<&Path>, decoy_cwd: bool) -> Result<Expansion, String> {
     let mut cmd = Command::new(&tools.rustc);
     cmd.arg("--edition=2021")
         .arg("--crate-type=lib")
@@ -306,8 +311,22 @@ pub fn expand(tools: &MacroTools, dir: &Path, file: &str, hash_seed: u64, manife
     for (n, p) in &tools.externs {
         cmd.arg("--extern").arg(format!("{n}={}", p.display()));
     }
-    cmd.arg(file);
-    cmd.current_dir(dir);
+    // the source file is named absolutely; with a manifest directory set, rustc is
+    // started from ANOTHER directory that holds a decoy `schema.json` (cargo starts
+    // rustc from the workspace root, not from the package): the macro resolves the
+    // schema against CARGO_MANIFEST_DIR, never against the current directory
+    cmd.arg(dir.join(file));
+    if manifest_dir.is_some() && decoy_cwd {
+        let elsewhere = dir.join("elsewhere");
+        let _ = std::fs::create_dir_all(&elsewhere);
+        let _ = std::fs::write(
+            elsewhere.join("schema.json"),
+            r#"{"$schema":"http://json-schema.org/draft-07/schema#","title":"Decoy","type":"object","properties":{"decoy":{"type":"string"}}}"#,
+        );
+        cmd.current_dir(&elsewhere);
+    } else {
+        cmd.current_dir(dir);
+    }
     cmd.env_clear();
     cmd.env("PATH", "/usr/bin:/bin");
     cmd.env("RUSTC_BOOTSTRAP", "1");
@@ -664,7 +683,9 @@ fn execute_macro_in(run: &MacroRun, tools: &MacroTools, dir: &Path, extra_hash_s
                 std::fs::write(dir.join("schema.json"), re).map_err(|e| e.to_string())?;
             }
         }
-        let again = expand(tools, dir, "macro.rs", *hs, manifest)?;
+        // ... and every second one is started from the package directory itself
+        // instead of the decoy directory (another working directory of the host process)
+        let again = expand_from(tools, dir, "macro.rs", *hs, manifest, n % 2 == 1)?;
         out.expansions += 1;
         // compare without the include_str! anchor (it embeds the document's bytes,
         // which legitimately differ for the re-encoded document)
